@@ -455,11 +455,45 @@ func (c *FnCtx) callByKey(st *State, call *ast.CallExpr, key string, sig *types.
 }
 
 // applyCallee: contract application with evaluated arguments.
-func (c *FnCtx) applyCallee(st *State, site ast.Node, key string, sig *types.Signature, recv *Term, recvT types.Type, args []*Term) []*Term {
+// applyCallee applies a callee by its contract. If the callee's contract cannot be evaluated against the current code (it
+// names something that no longer exists), the callee is treated like a function without contract (inlined if possible,
+// otherwise havocked) instead of making the caller undecidable.
+func (c *FnCtx) applyCallee(st *State, site ast.Node, key string, sig *types.Signature, recv *Term, recvT types.Type, args []*Term) (rs []*Term) {
+	if c.brokenContracts[key] {
+		return c.applyCallee1(st, site, key, sig, recv, recvT, args)
+	}
+	snap := st.clone()
+	nobl := len(c.obls)
+	func() {
+		defer func() {
+			if r := recover(); r != nil {
+				u, ok := r.(unsupported)
+				if !ok || !strings.Contains(u.msg, ": spec: ") || !strings.HasPrefix(key, repoPrefix) {
+					panic(r)
+				}
+				if c.brokenContracts == nil {
+					c.brokenContracts = map[string]bool{}
+				}
+				c.brokenContracts[key] = true
+				c.assumptionsUsed["contract of "+shortFuncKey(key)+" does not bind to the current code ("+truncate(u.msg, 100)+"): callee treated as having no contract"] = true
+				*st = *snap
+				c.obls = c.obls[:nobl]
+				rs = c.applyCallee1(st, site, key, sig, recv, recvT, args)
+			}
+		}()
+		rs = c.applyCallee1(st, site, key, sig, recv, recvT, args)
+	}()
+	return rs
+}
+
+func (c *FnCtx) applyCallee1(st *State, site ast.Node, key string, sig *types.Signature, recv *Term, recvT types.Type, args []*Term) []*Term {
 	if recv != nil && recvT != nil {
 		key = c.eng.canonicalMethodKey(key, recvT)
 	}
 	ct := c.eng.contracts[key]
+	if c.brokenContracts[key] {
+		ct = nil
+	}
 	isRepo := strings.HasPrefix(key, repoPrefix)
 	nres := sig.Results().Len()
 	fiCallee := c.eng.funcs[key]
